@@ -297,7 +297,7 @@ func (bs *BinarySpray) NotifyNewBundle(bp BundleDescriptor) {
 			"bundle":           bp.ID(),
 			"remaining_copies": metadata.remainingCopies,
 		}).Debug("SprayAndWait received bundle from foreign host")
-	} else {
+	} else if bs.c.HasEndpoint(bp.MustBundle().PrimaryBlock.SourceNode) {
 		metadata := sprayMetaData{
 			sent:            make([]bpv7.EndpointID, 0),
 			remainingCopies: bs.l,
@@ -310,6 +310,25 @@ func (bs *BinarySpray) NotifyNewBundle(bp BundleDescriptor) {
 		log.WithFields(log.Fields{
 			"bundle": bp.ID(),
 		}).Debug("SprayAndWait initialised new bundle from this host")
+	} else {
+		// A foreign bundle without a metadata block, e.g., relayed by a node running another routing algorithm, was
+		// not originated here: like in SprayAndWait, it only waits for its destination and is not sent back.
+		metadata := sprayMetaData{
+			sent:            make([]bpv7.EndpointID, 0),
+			remainingCopies: 1,
+		}
+
+		if pnBlock, err := bp.MustBundle().ExtensionBlock(bpv7.ExtBlockTypePreviousNodeBlock); err == nil {
+			metadata.sent = append(metadata.sent, pnBlock.Value.(*bpv7.PreviousNodeBlock).Endpoint())
+		}
+
+		bs.dataMutex.Lock()
+		bs.bundleData[bp.Id] = metadata
+		bs.dataMutex.Unlock()
+
+		log.WithFields(log.Fields{
+			"bundle": bp.ID(),
+		}).Debug("SprayAndWait received bundle without metadata block from foreign host")
 	}
 }
 
